@@ -44,6 +44,14 @@ partial def decGo (j : Json) : GoVal :=
     let v : GoVal := .struct [("Field", true, .str f), ("Message", true, .str m), ("Code", true, .num c)]
       [("Error", .str (f ++ ": " ++ m)), ("Label", .str ("label-" ++ f))]
     if jbool j "ptr" then .ptr (some v) else v
+  | "embed" =>
+    -- the harness's `Product`: a struct embedding `*Base` (exported type name, so the embedded field is the member `base`)
+    let base : GoVal := match jget j "base" with
+      | .null => .ptr none
+      | b => .ptr (some (.struct [("ID", true, .num (match jget b "id" with | .num x => (x.mantissa : Rat) / ((10 ^ x.exponent : Nat) : Rat) | _ => 0)),
+                                  ("Slug", true, .str (jstr b "slug"))] []))
+    let p : GoVal := .struct [("Sku", true, .str (jstr j "sku")), ("Base", true, base), ("Stock", true, .num 4)] []
+    if jbool j "ptr" then .ptr (some p) else p
   | "scene" =>
     -- the harness's `Scene`: `Rect` values and pointers behind the non-empty interface type `Shape`, in a field, a slice and a map
     let num (k : String) : Rat := match jget j k with | .num x => (x.mantissa : Rat) / ((10 ^ x.exponent : Nat) : Rat) | _ => 0
